@@ -109,6 +109,27 @@ def trunc_case(fs, lim=400):
 
 
 def main(pid, tier, seed, replay=None):
+    """run one property; an unexpected failure of the machinery itself is reported as a broken tie
+    (the property is then no longer shown to hold), never as a silent crash"""
+    try:
+        return _main(pid, tier, seed, replay)
+    except Exception as ex:  # noqa
+        import traceback
+        tb = traceback.format_exc()
+        core.log(tb)
+        path = core.write_replay(pid, {"property": pid, "kind": "tie-broken", "broken_obligations": ["check machinery failed: %r" % (ex,)], "traceback": tb[-4000:],
+                                       "note": "no input on which the property itself fails was found; the check could not be completed"})
+        print("VIOLATION property=%s replay=%s no-failing-input-found" % (pid, path))
+        try:
+            core.write_evidence(pid, {"property_id": pid, "tier": tier, "seed": seed, "level": "proof", "wall_s": 0.0, "violations": 1,
+                                      "coverage": {"obligations": 1, "discharged": 0, "checker_cmd": "./check %s" % pid, "trusted_base": [],
+                                                   "evaluations": 0, "distinct_nontrivial": 0, "samples": [["check machinery failed"]], "broken": [repr(ex)]}})
+        except Exception:
+            pass
+        return 1
+
+
+def _main(pid, tier, seed, replay=None):
     t0 = time.time()
     mod = load_prop(pid)
     rundir = os.path.join(core.BUILD, "run", pid, tier)
